@@ -18,9 +18,26 @@ GRID = {"IOU": [(1, 10), (1, 4), (1, 3), (1, 2), (1, 2), (2, 3), (3, 4)], "DSC":
         "ASSD": [(1, 2), (1, 1), (2, 1), (5, 1)]}
 
 
-def one_case(ctx, pred, ref, cfg, src):
+_EVALS = {}
+_HIST = {}
+
+
+def one_case(ctx, pred, ref, cfg, src, shared=False):
     inp = {"shape": list(pred.shape), "dtype": str(pred.dtype), "pred": gen.arr_json(pred), "ref": gen.arr_json(ref), "cfg": cfg, "src": src}
-    res = E.run_impl(cfg, pred, ref)
+    ev = None
+    if shared:
+        # a long-lived evaluator per configuration: results must not depend on what it evaluated before
+        import json
+        key = json.dumps(cfg, sort_keys=True)
+        if key not in _EVALS:
+            with impl.quiet():
+                _EVALS[key] = impl.mk_evaluator(cfg)
+            _HIST[key] = []
+        ev = _EVALS[key]
+        inp["history_shapes"] = list(_HIST[key][-4:])
+        _HIST[key].append(list(pred.shape))
+        ctx.count("shared_evaluator_object")
+    res = E.run_impl(cfg, pred, ref, evaluator=ev)
     it = cfg["input"]
     eff = cfg.get("backend") or ("cc3d" if pred.ndim >= 3 else "scipy")
     mc = cfg.get("matcher")
@@ -103,6 +120,11 @@ def rand_cfg(ctx, pred, ref):
                     backend=rng.choice([None, None, "cc3d", "scipy"]) if it == "SEMANTIC" else None)
 
 
+POOL = [E.mk_cfg("SEMANTIC", ["IOU", "DSC", "RVD"], matcher=E.naive("IOU", (1, 2))),
+        E.mk_cfg("SEMANTIC", ["IOU", "DSC"], matcher=E.naive("DSC", (1, 2)), decision=["IOU", {"q": [1, 2]}]),
+        E.mk_cfg("UNMATCHED", ["IOU", "DSC", "RVD"], matcher=E.naive("IOU", (1, 4)))]
+
+
 def many_instances(rng, n):
     """n separated 2x2 blocks per side, slightly shifted predictions"""
     W = 4 * n + 2
@@ -123,6 +145,15 @@ def corpus(ctx):
             one_case(ctx, pred, ref, E.mk_cfg(it, ["IOU", "DSC"], matcher=E.naive("IOU", (1, 2))), f"corpus.many{n}")
         one_case(ctx, (pred > 0).astype(np.uint8), (ref > 0).astype(np.uint8),
                  E.mk_cfg("SEMANTIC", ["IOU", "DSC"], matcher=E.naive("IOU", (1, 2)), backend="cc3d"), f"corpus.many{n}.sem")
+    # more than 255 components on one side only (semantic input)
+    a = np.zeros((41, 41), np.uint8)
+    a[::2, ::2] = 1
+    b = np.zeros((41, 41), np.uint8)
+    b[4:9, 4:9] = 1
+    b[20, 20] = 1
+    b[30:33, 30:33] = 1
+    for pr, rf in ((a, b), (b, a)):
+        one_case(ctx, pr, rf, E.mk_cfg("SEMANTIC", ["IOU", "DSC"], matcher=E.naive("IOU", (1, 10)), backend="scipy"), "corpus.many-components")
     # decision threshold stricter than the matching threshold
     ref = np.zeros((1, 30), np.uint8)
     pred = np.zeros((1, 30), np.uint8)
@@ -155,6 +186,17 @@ def run_cases(ctx, n, tag):
     for i in range(n):
         pred, ref = gen.pair(rng, hi=7, max_obj=5)
         one_case(ctx, pred, ref, rand_cfg(ctx, pred, ref), f"{tag}{i}")
+        if i % 3 == 0:
+            # a small pool of fixed configurations whose evaluators live across cases of different dimensionality
+            nd = ctx.rng.choice([1, 2, 3])
+            p2, r2 = gen.pair(ctx.rng, ndim=nd, hi=6, max_obj=4)
+            if ctx.rng.random() < 0.5 and nd >= 2:
+                r2 = np.zeros((4,) * nd, np.uint8)
+                for k2 in range(ctx.rng.randint(2, 4)):
+                    r2[(k2,) * nd] = 1
+                p2 = r2.copy()
+                p2[(0,) * nd] = 0
+            one_case(ctx, p2, r2, POOL[i % len(POOL)], f"{tag}{i}.shared", shared=True)
 
 
 def run(ctx):
